@@ -2,6 +2,7 @@ import RsMatterVerif.Model.Codec.QrPayload
 import RsMatterVerif.Model.Codec.BtpHdr
 import RsMatterVerif.Model.Codec.Bdx
 import RsMatterVerif.Model.Codec.CheckIn
+import RsMatterVerif.Model.Codec.BleAdv
 import Driver.C17U
 /-! C17 driver, second batch of codecs (QR payload, BTP, BDX, check-in) and the unproved formats. -/
 namespace Driver.C17More
@@ -292,20 +293,33 @@ def strHex (s : String) : String := hex (s.toUTF8.toList.map (·.toNat))
 def ipv4Str (ip : Nat) : String :=
   s!"{ip / 16777216 % 256}.{ip / 65536 % 256}.{ip / 256 % 256}.{ip % 256}"
 
+def advShow (r : Except Err (Option BleAdv.Adv)) : String :=
+  match r with
+  | .ok (some a) => s!"ok {a.vid} {a.pid} {a.disc} {if a.additional then 1 else 0}"
+  | .ok none => "none"
+  | .error e => exErr e
+
+/-- commissionable advertisement: modelled (`Model/Codec/BleAdv.lean`); the recovery advertisement: oracle only -/
 def stepAdv (op : List String) (out : String) : String :=
   if isPanic out then "ORA decoder panicked" else
   match op with
   | ["rt", vid, pid, disc] =>
     match nats [vid, pid, disc] with
     | some [v, p, d] =>
-      if d < 4096 then
-        let want := s!"ok {v} {p} {d} 0"
-        match out.splitOn " | " with
-        | [a, b] =>
-          if (splitFirst a).2 = want ∧ (splitFirst b).2 = want then "ok"
-          else s!"ORA advertisement round trip: want [{want}] got [{out}]"
-        | _ => s!"ORA advertisement round trip failed: {out}"
-      else "ok"
+      let a : BleAdv.Adv := { vid := v, pid := p, disc := d, additional := false }
+      let full := BleAdv.encode a
+      let svc := BleAdv.servicePayload a
+      let model := s!"{hex full} {advShow (BleAdv.parseAdv full)} | {hex svc} {advShow (BleAdv.parseServiceData svc)}"
+      let ora : Option String :=
+        if d < 4096 then
+          let want := s!"ok {v} {p} {d} 0"
+          match out.splitOn " | " with
+          | [x, y] =>
+            if (splitFirst x).2 = want ∧ (splitFirst y).2 = want then none
+            else some s!"advertisement round trip: want [{want}] got [{out}]"
+          | _ => some s!"advertisement round trip failed: {out}"
+        else none
+      verdict model out ora
     | _ => "BAD args"
   | ["rrt", id] =>
     let want := s!"ok {id} 0"
@@ -314,7 +328,12 @@ def stepAdv (op : List String) (out : String) : String :=
       if (splitFirst a).2 = want ∧ (splitFirst b).2 = want then "ok"
       else s!"ORA recovery advertisement round trip: want [{want}] got [{out}]"
     | _ => s!"ORA recovery advertisement round trip failed: {out}"
-  | ["dec", _] => "ok"
+  | ["dec", h] =>
+    match unhex h, out.splitOn " | " with
+    | some bs, [a, b, _, _] =>
+      let model := s!"{advShow (BleAdv.parseAdv bs)} | {advShow (BleAdv.parseServiceData bs)}"
+      verdict model s!"{a} | {b}" none
+    | _, _ => "BAD dec"
   | _ => "BAD op"
 
 def stepMdns (op : List String) (out : String) : String :=
